@@ -38,6 +38,10 @@ CONFIG_CALLS = {"self.compute_pooling_area", "self.get_dropout_mask_for_cell", "
                 "np.prod", "K.cast_to_floatx_cfg"}
 
 
+GEOM_OPS = {"conv", "conv_transpose", "depthwise_conv", "separable_conv"}
+GEOMETRY = []     # (class, op, ((keyword, source text), ...)) in order of discovery
+
+
 class Fail(Exception):
   pass
 
@@ -183,7 +187,14 @@ class Exec:
           return CFG
       if not targs:
         return CFG
-      return V("Op", ALIAS.get(fn, fn), targs)
+      op = ALIAS.get(fn, fn)
+      if op in GEOM_OPS and not (fn.startswith("self.") and fn[5:] in self.methods):
+        # a backend convolution: record which geometry keywords it receives and from where (golden table of C11)
+        kws = sorted((k.arg, "".join(ast.unparse(k.value).split())) for k in e.keywords if k.arg)
+        ent = (self.cname, op, tuple(kws))
+        if ent not in GEOMETRY:
+          GEOMETRY.append(ent)
+      return V("Op", op, targs)
     raise Fail(f"{self.cname}: unsupported expression {type(e).__name__}: {ast.unparse(e)[:60]}")
 
   def block(self, stmts, env):
@@ -285,6 +296,7 @@ def emit(outdir):
   hdr = ("(* GENERATED on every run by tools/translate/layercalls.py from " + REPO + "/qkeras -- do not edit *)\n"
          "From Coq Require Import String List.\nFrom QV Require Import Layers.Dataflow.\nImport ListNotations.\nOpen Scope string_scope.\n")
   rows, qrows, fails = [], [], []
+  del GEOMETRY[:]
   for fname, cname in LAYERS:
     path = os.path.join(REPO, "qkeras", fname)
     try:
@@ -298,6 +310,8 @@ def emit(outdir):
       qrows.append(f"Definition genq_{cname} : list string := [].")
   text = hdr + "\n".join(rows) + "\n" + "\n".join(qrows) + "\n"
   text += "Definition layer_translation_failures : list string := [" + "; ".join(cstr(f) for f in fails) + "].\n"
+  text += ("Definition gen_geometry : list (string * string * list (string * string)) :=\n  [" +
+           ";\n   ".join(f"({cstr(c)}, {cstr(o)}, [" + "; ".join(f"({cstr(k)}, {cstr(v)})" for k, v in kws) + "])" for c, o, kws in GEOMETRY) + "].\n")
   path = os.path.join(outdir, "LayerCalls.v")
   with open(path, "w") as f:
     f.write(text)
